@@ -2,7 +2,8 @@
 
 Proof: coq/C11/Props_C11.v — every representation-specialised arm of boa_string (Latin-1 buffer / UTF-16 buffer)
 computes the plain code-unit operation; `indistinguishable` is the property itself (unbounded list induction).
-Tie: correspondence — coq/C11/Model_C11.v evaluated with vm_compute (coq/C11/Eval_C11.v) against
+Tie: correspondence — coq/C11/Model_C11.v (glue coq/C11/Eval_C11.v) evaluated by its extraction (coq/C11/Extract_C11.v,
+ocaml/C11/driver.ml; a sample of the same terms is evaluated with vm_compute too and must agree) against
 harness `strops`, which builds every case through every public constructor and runs every operation on every
 constructor (pair); results are compared per representation group (L/U, LL/LU/UL/UU).
 Search: the property's own oracle on the implementation alone — all constructors agree with each other and with a
@@ -18,6 +19,7 @@ import json
 import os
 import re
 import subprocess
+import time
 from concurrent.futures import ThreadPoolExecutor
 
 import vlib
@@ -28,6 +30,7 @@ import c11_gen
 PROP = "C11"
 TRUSTED = [
     "Coq 8.16.1 kernel + vm_compute (no native_compute)",
+    "Coq extraction (ExtrOcamlBasic only) + OCaml 4.13 for the model side of the correspondence (ocaml/C11/driver.ml); cross-checked against vm_compute of the same terms on a sample every run",
     "hand-written model coq/C11/Model_C11.v of core/string/src/{str,lib,iter,code_point,builder,common}.rs, tied by correspondence only on the inputs run",
     "Rust std semantics as modelled: <[T]>::eq/cmp (length + memcmp), Iterator::eq/cmp/zip/all/position/rposition/skip, <[T]>::windows/get, char::decode_utf16, str::encode_utf16/as_bytes, char::from_u32",
     "modelled, not verified: allocation/refcount/unsafe pointer plumbing of SequenceString/SliceString/StaticString/JsStringBuilder (only the JsStr view they expose), FxHashMap lookup of the static table (as Hash+Eq), usize overflow",
@@ -146,7 +149,8 @@ def model_batch(args):
     return res, ""
 
 
-def model_eval(cases, tag, chunk=200):
+def model_eval_vm(cases, tag, chunk=200):
+    """The model evaluated inside Coq (vm_compute): slow (printing), used to cross-check the extraction on a sample."""
     jobs = [("Cases_C11_%s_%d" % (tag, k), cases[i:i + chunk]) for k, i in enumerate(range(0, len(cases), chunk))]
     out = []
     with ThreadPoolExecutor(max_workers=max(2, min(vlib.NCPU, 12))) as ex:
@@ -155,6 +159,54 @@ def model_eval(cases, tag, chunk=200):
                 return None, err
             out += res
     return out, ""
+
+
+def model_driver():
+    """Extracted model (coq/C11/Extract_C11.v, ExtrOcamlBasic only) + ocaml/C11/driver.ml -> binary path or (None, log)."""
+    rc, out, err = vlib.sh(["bash", os.path.join(vlib.OCAML, "C11", "build.sh")], timeout=1500)
+    path = out.strip().split("\n")[-1] if out.strip() else ""
+    if rc != 0 or not os.path.exists(path):
+        return None, (err or out)[-1500:]
+    return path, ""
+
+
+def dec_list(l):
+    return "-" if not l else ",".join(str(x) for x in l)
+
+
+def model_line(c):
+    sa, sb = scalars_of(c["a"]), scalars_of(c["b"])
+    return "%s %s %s %s %d %d %d %d" % (dec_list(c["a"]), dec_list(c["b"]), "N" if sa is None else dec_list(sa),
+                                        "N" if sb is None else dec_list(sb), c["from"], c["p1"], c["p2"], c["byte"])
+
+
+def parse_model_row(line):
+    return [[] if g == "" else [[int(x) for x in o.split(",")] for o in g.split(";")] for g in line.split("|")]
+
+
+def model_eval(cases, driver):
+    """The model evaluated by the extracted OCaml code, in parallel chunks."""
+    if not cases:
+        return [], ""
+    lines = [model_line(c) for c in cases]
+    nproc = max(1, min(vlib.NCPU, 8))
+    size = max(1, (len(lines) + nproc - 1) // nproc)
+    chunks = [lines[i:i + size] for i in range(0, len(lines), size)]
+
+    def one(ch):
+        p = subprocess.run([driver], input="\n".join(ch) + "\n", stdout=subprocess.PIPE, stderr=subprocess.PIPE, text=True, timeout=1800)
+        return p.returncode, p.stdout, p.stderr
+    rows = []
+    with ThreadPoolExecutor(max_workers=nproc) as ex:
+        for ch, (rc, out, err) in zip(chunks, ex.map(one, chunks)):
+            got = [l for l in out.split("\n") if l != ""]
+            if rc != 0 or len(got) != len(ch) or any(l.startswith("ERR") for l in got):
+                return None, "model driver failed (rc %d, %d rows for %d cases): %s" % (rc, len(got), len(ch), (err or out)[-400:])
+            try:
+                rows += [parse_model_row(l) for l in got]
+            except ValueError as e:
+                return None, "unparsable model driver output (%s)" % e
+    return rows, ""
 
 
 def enc(l):
@@ -396,8 +448,17 @@ def main():
                        "non-trivial = every generated case (each exercises >= 1 constructor pair with different internal representations "
                        "unless A contains a unit > 0xFF, where only the UTF-16 family exists: counted separately as a_latin1_able)")
     broken = None
+    timing = {}
+    run.cov["phase_wall_s"] = timing
+    tph = time.time()
+
+    def phase(name):
+        nonlocal tph
+        now = time.time()
+        timing[name] = round(now - tph, 1)
+        tph = now
     # 1-3. proofs + gates
-    pr = vlib.proof_stage(PROP, ["Common", "C11"], "C11/Props_C11.v", extra_targets=["C11/Eval_C11.vo"])
+    pr = vlib.proof_stage(PROP, ["Common", "C11"], "C11/Props_C11.v", extra_targets=["C11/Eval_C11.vo", "C11/Extract_C11.vo"])
     run.set_proof(pr, TRUSTED)
     if not pr["ok"]:
         broken = pr["broken"]
@@ -406,6 +467,7 @@ def main():
     if binpath is None:
         return run.finish()
 
+    phase("proof+harness_build")
     # 4a. which `JsStr == str` variant does /repo have?  (Coq refutation witnesses, corpus first)
     arms = {"L": "new", "U": "new"}
     wit_lines = [case_line({"a": w["a"], "b": w["b"], "from": 0, "p1": 0, "p2": len(w["a"]), "byte": 97}, "w%d" % i) for i, w in enumerate(WITNESSES)]
@@ -436,16 +498,41 @@ def main():
     cases = corpus_cases() + c11_gen.generate(run.rng, run.quick)
     run.cov["distribution"] = c11_gen.describe(cases)
     lines = [case_line(c, str(i)) for i, c in enumerate(cases)]
+    # the model side runs concurrently with the harness: extracted OCaml driver on every case, and the same model inside Coq
+    # (vm_compute) on a sample, which must agree with the extraction
+    have_model = broken is None or os.path.exists(os.path.join(vlib.COQ, "C11", "Eval_C11.vo"))
+    driver, derr = (None, "Eval_C11.vo not built")
+    if have_model:
+        driver, derr = model_driver()
+    ncorp = len(corpus_cases())
+    nvm = 24 if run.quick else 120
+    vm_idx = list(range(ncorp)) + sorted(run.rng.sample(range(ncorp, len(cases)), min(nvm, len(cases) - ncorp)))
+    bg = ThreadPoolExecutor(max_workers=2)
+    fut_model = bg.submit(model_eval, cases, driver) if driver else None
+    fut_vm = bg.submit(model_eval_vm, [cases[i] for i in vm_idx], "s%d_p%d" % (run.seed, os.getpid()), 40) if have_model else None
     hout = run_parallel(binpath, lines)
     by_id = {}
     for l in hout:
         cid, fields, markers, panic = parse_case_output(l)
         by_id[cid] = (fields, markers, panic)
+    phase("harness_cases")
     mrows = None
-    if broken is None or os.path.exists(os.path.join(vlib.COQ, "C11", "Eval_C11.vo")):
-        mrows, err = model_eval(cases, "s%d" % run.seed)
+    if have_model:
+        mrows, err = fut_model.result() if fut_model else (None, derr)
         if mrows is None and broken is None:
-            broken = {"kind": "correspondence", "detail": {"error": "model evaluation failed: " + err}}
+            broken = {"kind": "correspondence", "detail": {"error": "model evaluation (extracted driver) failed: " + err}}
+        vrows, verr = fut_vm.result()
+        if vrows is None:
+            if broken is None:
+                broken = {"kind": "correspondence", "detail": {"error": "model evaluation (vm_compute) failed: " + verr}}
+        elif mrows is not None:
+            diff = [i for i, vr in zip(vm_idx, vrows) if vr != mrows[i]]
+            run.cov["extraction_cross_check"] = {"cases_evaluated_by_vm_compute_too": len(vm_idx), "differences": len(diff)}
+            if diff and broken is None:
+                broken = {"kind": "correspondence", "detail": {"error": "extracted model and vm_compute disagree", "case": lines[diff[0]],
+                                                               "vm_compute": vrows[vm_idx.index(diff[0])], "extracted": mrows[diff[0]]}}
+    bg.shutdown(wait=False)
+    phase("model_eval_wait")
     prop_bad, corr_bad, known_hits = [], [], {}
     obs_total = 0
     for i, c in enumerate(cases):
@@ -470,43 +557,54 @@ def main():
     run.cov["compared_fields"] = obs_total
     run.cov["known_class_hits_in_correspondence"] = known_hits
 
+    phase("compare")
     # 5. search on the implementation alone
     skip = "1" if "old" in arms.values() else "0"
     enlarged = (not run.quick) or broken is not None or bool(corr_bad)
     jobs = []
     nsweep = 16 if run.quick else 32
-    per = 2500 if not enlarged else 12000
+    per = 700 if not enlarged else 5000
     for k in range(nsweep):
-        jobs.append("sweep %d %d %d %s" % ((run.seed * 1000 + k) & 0x7fffffff, per if k % 4 else per // 6, [8, 16, 24, 64][k % 4], skip))
+        # sweeps run the binary operations on (every constructor of A) x (12 representative constructors of B); `full` = every pair
+        jobs.append("sweep %d %d %d %s%s" % ((run.seed * 1000 + k) & 0x7fffffff, per if k % 4 else per // 6, [8, 16, 24, 64][k % 4], skip,
+                                            " full" if enlarged and k % 4 == 1 else ""))
     parts = 16
     stride = run.rng.randrange(1, 4)
     for part in range(parts):
-        jobs.append("exh 2 1 %d %d %d %d %s" % (part, parts, run.seed & 0xffff, 1 if enlarged else 3, skip))
-        jobs.append("exh 1 2 %d %d %d %d %s" % (part, parts, run.seed & 0xffff, 1 if enlarged else 3, skip))
+        jobs.append("exh 2 1 %d %d %d %d %s%s" % (part, parts, run.seed & 0xffff, 1 if enlarged else 6, skip, " full" if enlarged else ""))
+        jobs.append("exh 1 2 %d %d %d %d %s%s" % (part, parts, run.seed & 0xffff, 1 if enlarged else 6, skip, " full" if enlarged else ""))
         if enlarged:
             jobs.append("exh 3 1 %d %d %d %d %s" % (part, parts, run.seed & 0xffff, 1, skip))
-            jobs.append("exh 2 2 %d %d %d %d %s" % (part, parts, run.seed & 0xffff, 1, skip))
-            jobs.append("exh 1 3 %d %d %d %d %s" % (part, parts, run.seed & 0xffff, 2, skip))
-            jobs.append("exh 3 2 %d %d %d %d %s" % (part, parts, run.seed & 0xffff, 24, skip))
+            jobs.append("exh 2 2 %d %d %d %d %s" % (part, parts, run.seed & 0xffff, 4, skip))
+            jobs.append("exh 1 3 %d %d %d %d %s" % (part, parts, run.seed & 0xffff, 4, skip))
+            jobs.append("exh 3 2 %d %d %d %d %s" % (part, parts, run.seed & 0xffff, 96, skip))
         else:
-            jobs.append("exh 2 2 %d %d %d %d %s" % (part, parts, run.seed & 0xffff, 40, skip))
-            jobs.append("exh 3 1 %d %d %d %d %s" % (part, parts, run.seed & 0xffff, 40, skip))
+            jobs.append("exh 2 2 %d %d %d %d %s" % (part, parts, run.seed & 0xffff, 80, skip))
+            jobs.append("exh 3 1 %d %d %d %d %s" % (part, parts, run.seed & 0xffff, 80, skip))
+    # every one-unit string (all 2^16 code units) in every representation: the two whitespace predicates, code points, == str
+    for lo in range(0, 0x10000, 0x1000):
+        jobs.append("units1 %d %d %s" % (lo, lo + 0x1000, skip))
     found = []
-    sweep_cases = sweep_obs = sweep_known = 0
+    sweep_cases = sweep_obs = sweep_known = units1_done = 0
     with ThreadPoolExecutor(max_workers=vlib.NCPU) as ex:
         for j, (o, rc) in zip(jobs, ex.map(lambda jb: run_lines(binpath, [jb]), jobs)):
             line = o[0] if o else ""
             m = re.match(r"ok (\d+) (\d+) (\d+)", line)
             if m:
+                if j.startswith("units1"):
+                    units1_done += int(m.group(1))
                 sweep_cases += int(m.group(1))
                 sweep_obs += int(m.group(2))
                 sweep_known += int(m.group(3))
                 run._distinct.add(("job", j))
+            elif line == "unknown-command" and os.environ.get("VERIF_C11_BIN"):
+                run.notes.append({"skipped_job_override_binary_is_older_than_the_check": j})
             else:
                 found.append((j, line or "exit %d" % rc))
     run.cov["evaluations"] += sweep_cases
-    run.cov["search"] = {"jobs": len(jobs), "cases": sweep_cases, "observations_checked_against_native_oracle": sweep_obs,
+    run.cov["search"] = {"jobs": len(jobs), "cases": sweep_cases, "one_unit_strings_checked": units1_done, "one_unit_strings_exhaustive": units1_done == 0x10000, "observations_checked_against_native_oracle": sweep_obs,
                          "known_class_deviations_skipped": sweep_known, "enlarged": enlarged}
+    phase("search_sweeps")
     # JS-level observers
     js_lines = ["js %s %s" % (cid, src) for cid, src, _, _ in JS_CASES]
     jout = run_parallel(binpath, js_lines, min(vlib.NCPU, 8))
@@ -520,6 +618,7 @@ def main():
             js_bad.append({"id": cid, "source": src, "expected": want, "got": got, "class": c})
     run.cov["js_observers"] = {"cases": len(JS_CASES), "failing": [j["id"] for j in js_bad]}
     run.cov["programs"] = len(JS_CASES)
+    phase("js_observers")
 
     # verdicts
     for c, p in prop_bad[:6]:
@@ -563,13 +662,41 @@ def main():
 
 
 def replay(obj):
-    run = Run(PROP, "proof")
+    """Re-run the input of a replay file on the current /repo and judge it again with the property's oracle.
+    Exit code 1 = the failure reproduces, 0 = it does not (fixed)."""
     binpath = os.environ.get("VERIF_C11_BIN")
     if not binpath:
-        ok, paths, _ = vlib.harness_build(["strops"])
+        ok, paths, blog = vlib.harness_build(["strops"])
+        if not ok:
+            vlib.infra_error(PROP, "harness build failed: " + blog[-400:])
         binpath = paths["strops"]
     inp = obj.get("input", "")
     out, rc = run_lines(binpath, [inp])
     for l in out:
         print(l.replace("\t", "\n  "))
+    bad = []
+    if inp.startswith("js "):
+        got = out[0].split("\t", 1)[1] if out and "\t" in out[0] else "<missing>"
+        if "expected" in obj and got != obj["expected"]:
+            bad.append("script result %s, expected %s" % (got, obj["expected"]))
+    elif inp.startswith("case "):
+        if not out:
+            bad.append("no output (crash, exit %d)" % rc)
+        else:
+            cid, fields, markers, panic = parse_case_output(out[0])
+            c = {k: obj[k] for k in ("a", "b", "from", "p1", "p2", "byte") if k in obj}
+            if len(c) == 6:
+                p, _, _ = compare_case(c, fields, markers, panic, None, {"L": "new", "U": "new"})
+                bad += ["%s: %s" % (x["what"], x["detail"]) for x in p]
+            elif markers or panic:
+                bad += markers + ([panic] if panic else [])
+    else:
+        if out and not out[0].startswith("ok "):
+            bad.append(out[0])
+    if bad:
+        print("REPRODUCED (%d failing observation(s)):" % len(bad))
+        for b in bad[:12]:
+            print("  " + b)
+        return 1
+    print("NOT REPRODUCED: every constructor agrees with the plain code-unit oracle on this input")
     return 0
